@@ -1,7 +1,73 @@
-//! Monomorphic instance walk (see DESIGN §3.1).
+//! Dependency facts: for every foreign trait whose methods blsful calls, which of the trait's provided
+//! (default-bodied) methods each backend-crate impl overrides.  A method that one backend overrides and the other
+//! inherits from the trait is a place where the two backends may legitimately behave differently.
 use crate::facts::Cx;
 use crate::json::J;
+use rustc_hir::def::DefKind;
+use rustc_hir::def_id::DefId;
+use rustc_middle::mir::{Operand, TerminatorKind};
+use rustc_middle::ty::TyKind;
+use std::collections::{BTreeMap, HashSet};
 
-pub fn walk<'tcx>(_cx: &Cx<'tcx>) -> J {
-    J::obj()
+pub fn walk<'tcx>(cx: &Cx<'tcx>) -> J {
+    let tcx = cx.tcx;
+    let mut traits: BTreeMap<String, DefId> = BTreeMap::new();
+    let mut called: HashSet<(DefId, String)> = HashSet::new();
+    for ld in tcx.hir_body_owners() {
+        let d = ld.to_def_id();
+        if !matches!(tcx.def_kind(d), DefKind::Fn | DefKind::AssocFn | DefKind::Closure) {
+            continue;
+        }
+        if !tcx.is_mir_available(d) {
+            continue;
+        }
+        let body = tcx.optimized_mir(d);
+        for bb in body.basic_blocks.iter() {
+            if let Some(t) = &bb.terminator {
+                if let TerminatorKind::Call { func: Operand::Constant(c), .. } = &t.kind {
+                    if let TyKind::FnDef(fd, _) = c.const_.ty().kind() {
+                        if matches!(tcx.def_kind(*fd), DefKind::AssocFn) {
+                            if let Some(tr) = tcx.trait_of_assoc(*fd) {
+                                if !tr.is_local() {
+                                    traits.insert(cx.path(tr), tr);
+                                    called.insert((tr, tcx.item_name(*fd).to_string()));
+                                }
+                            }
+                        }
+                    }
+                }
+            }
+        }
+    }
+    let mut out = Vec::new();
+    for (_, tr) in traits {
+        let provided: Vec<_> = tcx.provided_trait_methods(tr).collect();
+        if provided.is_empty() {
+            continue;
+        }
+        for im in tcx.all_impls(tr) {
+            let krate = tcx.crate_name(im.krate).to_string();
+            if krate != "blstrs_plus" && krate != "bls12_381_plus" {
+                continue;
+            }
+            let st = tcx.type_of(im).instantiate_identity().skip_norm_wip();
+            let map = tcx.impl_item_implementor_ids(im);
+            let mut o = J::obj();
+            o.set("trait", J::s(tcx.item_name(tr).to_string()));
+            o.set("trait_path", J::s(cx.path(tr)));
+            o.set("impl_crate", J::s(krate));
+            o.set("self", J::s(cx.ty_s(st)));
+            let mut ms = J::obj();
+            for m in &provided {
+                let name = tcx.item_name(m.def_id).to_string();
+                let mut e = J::obj();
+                e.set("overridden", J::Bool(map.contains_key(&m.def_id)));
+                e.set("called_by_blsful", J::Bool(called.contains(&(tr, name.clone()))));
+                ms.set(&name, e);
+            }
+            o.set("provided", ms);
+            out.push(o);
+        }
+    }
+    J::obj().put("dep_overrides", J::Arr(out))
 }
